@@ -45,7 +45,7 @@ def notification_kinds():
         "group-add": lambda r, p: notif(r, "w:gp2", [("add", {}, [part(r)], None)], group=True, with_participant=True),
         "group-remove": lambda r, p: notif(r, "w:gp2", [("remove", {"subject": "s"}, [part(r)], None)], group=True, with_participant=True),
         "group-subject": lambda r, p: notif(r, "w:gp2", [("subject", {"s_t": "3", "s_o": J(r), "subject": "new"}, [], None)], group=True, with_participant=True),
-        "encrypt-count": lambda r, p: notif(r, "encrypt", [("count", {"value": str(r.randint(0, 9))}, [], None)], with_participant=False),
+        "encrypt-count": lambda r, p: notif(r, "encrypt", [("count", {"value": str(r.choice([0, 1, r.randint(0, 9), 9, 10, 11, r.randint(10, 99), 100, 811, 812, r.randint(100, 5000)]))}, [], None)], with_participant=False),
         "encrypt-identity": lambda r, p: notif(r, "encrypt", [("identity", {}, [], None)], with_participant=False),
         "encrypt-other": lambda r, p: notif(r, "encrypt", r.choice([[("digest", {}, [], None)], [], [("whatever", {"x": "1"}, [], None)]]), with_participant=False),
         "unknown-type": lambda r, p: notif(r, r.choice(["web", "psa", "server_sync", "mediaretry", "x-" + gen.s_from(r, "abcdef", 4)]), [("whatever", {}, [], None)] if r.random() < 0.6 else [], with_participant=p),
